@@ -170,7 +170,9 @@ def monitor_prop(c, K, pops):
     if pops.shape != (c["nsteps"] + 1, n):
         return "result has shape %s" % (pops.shape,)
     dev = numpy.max(numpy.abs(pops.sum(axis=1) - s0))
-    if dev > 1e-12 * max(1.0, s0):
+    # conservation is exact in exact arithmetic (theorem); in floats the rounding error scales with the largest entry, which
+    # grows without bound for inadmissible steps (dt |K| >> 1) - the tolerance is therefore relative to it
+    if dev > 1e-12 * max(1.0, s0, float(numpy.max(numpy.abs(pops))) * pops.shape[1]):
         return "sum of populations drifts by %g" % dev
     offd = K - numpy.diag(numpy.diag(K))
     admissible = (offd >= 0).all() and dt * numpy.max(numpy.abs(numpy.diag(K))) <= 1.0
@@ -259,7 +261,10 @@ def run(chk, cases):
                 if msg:
                     chk.violation("propagate:" + msg.split(" ")[0], "PopulationPropagator.propagate: " + msg, "monitor", c)
                 dt = Fraction(c["dt"][0], c["dt"][1])
-                lit = "(%d%%nat, %s, %s, %d%%nat, %s, %s)" % (
+                # tolerance relative to the largest stored entry (inadmissible steps make the values grow without bound)
+                import numpy
+                lit = "(%s, (%d%%nat, %s, %s, %d%%nat, %s, %s))" % (
+                    cm.qlit(1e-11 * max(1.0, float(numpy.max(numpy.abs(pops))))),
                     c["n"], cm.clist([cm.clist([cm.qlit(x) for x in row]) for row in K]), cm.qlit(dt), c["nsteps"],
                     cm.clist([cm.qlit(x) for x in c["p0"]]),
                     cm.clist([cm.clist([cm.qlit(x) for x in row]) for row in pops]))
@@ -285,9 +290,9 @@ def run(chk, cases):
     CP = 6
     for k in range(0, len(prop_items), CP):
         shards.append(cm.HEADER + "From QV Require Import Base.Alg Base.Util Model.C17.\n"
-                      "Definition cs : list case_prop := %s.\n"
-                      "Eval vm_compute in (bad (prop_agrees (Qmake 1 100000000000)) cs).\n"
-                      "Eval vm_compute in (bad prop_conserves cs).\n" % cm.clist(prop_items[k:k + CP]))
+                      "Definition cs : list (Q * case_prop) := %s.\n"
+                      "Eval vm_compute in (bad (fun p => prop_agrees (fst p) (snd p)) cs).\n"
+                      "Eval vm_compute in (bad (fun p => prop_conserves (snd p)) cs).\n" % cm.clist(prop_items[k:k + CP]))
         index.append(("prop", k))
     results = cm.coq_eval(PID, shards)
     for (kind, k), (rc, out) in zip(index, results):
